@@ -45,6 +45,11 @@ pub enum Op {
     /// the read half is polled to its end (the peer has closed its sending direction); the write
     /// half goes on as before
     ReadToEof,
+    /// a frame is put into the write buffer by hand while the Framed is taken apart (the
+    /// hand-over pattern: `into_parts`, append to `FramedParts::write_buf`, `from_parts`; with
+    /// `fresh` the parts are rebuilt with `FramedParts::new` + the old buffers): those bytes are
+    /// accepted bytes like any other
+    InjectWrite { size: u16, fill: u8, fresh: bool },
 }
 
 #[derive(Clone, Debug, Serialize, Deserialize, PartialEq)]
@@ -123,7 +128,7 @@ fn check_inner(c: &Case) -> CaseResult {
     let mut obs = Obs::new();
     let (mut partial, mut straddle, mut ready_at_hw, mut close_seen, mut close_with_data, mut flush_with_data) = (false, false, false, false, false, false);
     let mut saw_err = false;
-    let (mut convert_with_data, mut many_writes) = (false, false);
+    let (mut convert_with_data, mut many_writes, mut injected) = (false, false, false);
     let (mut rejected_with_data, mut read_eof_with_data) = (false, false);
 
     macro_rules! invariants {
@@ -229,6 +234,24 @@ fn check_inner(c: &Case) -> CaseResult {
                 };
                 invariants!(step, "conversion");
             }
+            Op::InjectWrite { size, fill, fresh } => {
+                let it = item(size % 3000, fill);
+                let mut parts = framed.into_parts();
+                let mut enc = Vec::new();
+                ref_encode(&mut enc, &it);
+                parts.write_buf.extend_from_slice(&enc);
+                ref_encode(&mut sent, &it);
+                injected = true;
+                framed = if fresh {
+                    let mut p2 = actix_codec::FramedParts::new(parts.io, parts.codec);
+                    p2.write_buf = parts.write_buf;
+                    p2.read_buf = parts.read_buf;
+                    Framed::from_parts(p2)
+                } else {
+                    Framed::from_parts(parts)
+                };
+                invariants!(step, "write buffer filled by hand");
+            }
             Op::PollFlush | Op::PollClose => {
                 let is_close = matches!(op, Op::PollClose);
                 let r = if is_close {
@@ -281,6 +304,7 @@ fn check_inner(c: &Case) -> CaseResult {
     obs.label_if(flush_with_data, "flush-with-buffered-data");
     obs.label_if(saw_err, "transport-error");
     obs.label_if(convert_with_data, "conversion-with-buffered-data");
+    obs.label_if(injected, "write-buffer-filled-by-hand");
     obs.label_if(rejected_with_data, "refused-item-with-buffered-data");
     obs.label_if(read_eof_with_data, "read-eof-with-buffered-data");
     obs.label_if(many_writes, ">16-writes-in-one-call");
@@ -307,6 +331,7 @@ fn op() -> impl Strategy<Value = Op> {
         3 => Just(Op::PollFlush),
         2 => Just(Op::PollClose),
         1 => any::<u8>().prop_map(|how| Op::Convert { how }),
+        1 => (prop::sample::select(vec![1u16, 5, 100, 1500, 2999]), any::<u8>(), any::<bool>()).prop_map(|(size, fill, fresh)| Op::InjectWrite { size, fill, fresh }),
         1 => any::<bool>().prop_map(|direct| Op::SendRejected { direct }),
         1 => Just(Op::ReadToEof),
     ]
